@@ -79,6 +79,9 @@ pub struct World {
     pub hash_seen: std::collections::BTreeMap<u64, u64>,
     /// recent boards with their canonical text (C07 eq <=> text)
     pub ring: Vec<(Board, String)>,
+    /// the last synchronisation re-adopted the model from a diverged board (premises of follow-up
+    /// comparisons with the pre-image no longer hold)
+    pub just_readopted: bool,
 }
 
 pub struct Ctx<'a> {
@@ -153,7 +156,7 @@ impl World {
     fn new(real: Board, model: Model, pure_play: bool) -> World {
         let legal = model.legal_moves();
         let boot_key = model.key();
-        World { real, model, legal, pure_play, boot_key, hash_seen: Default::default(), ring: vec![] }
+        World { real, model, legal, pure_play, boot_key, hash_seen: Default::default(), ring: vec![], just_readopted: false }
     }
 
     pub fn refresh(&mut self) {
@@ -212,12 +215,16 @@ impl World {
                     },
                 }
             }
-            let playable = bitboards_consistent(&self.real) && got.count(KING, WHITE) == 1 && got.count(KING, BLACK) == 1;
+            // Only a *sound* position is re-adopted: the other properties quantify over accepted boards, and
+            // "legal move", "canonical SAN" etc. are not defined by their statements on, say, a right without
+            // a rook. (C06 and C07 have had their say on the board as it stands just above.)
+            let playable = bitboards_consistent(&self.real) && got.unsound().is_none();
             if playable {
                 cx.hit("readopted_after_foreign_divergence");
                 self.model = got;
                 self.refresh();
                 self.pure_play = false;
+                self.just_readopted = true;
                 return Ok(());
             }
             Err(cx.foreign(&format!("desync {}", what)))
@@ -233,7 +240,30 @@ pub fn boot(b: &Boot, cx: &mut Ctx) -> R<World> {
             if *w >= 960 || *bl >= 960 {
                 return Err(Stop::Invalid("scharnagl out of range".into()));
             }
-            let real = guard(|| Board::double_chess960_startpos(*w, *bl)).map_err(|_| cx.foreign("start constructor panicked"))?;
+            // the thin wrappers are exercised too: equal indices go through chess960_startpos, and 518/518
+            // additionally through startpos() and Default
+            let real = if w == bl {
+                let r = guard(|| Board::chess960_startpos(*w)).map_err(|_| cx.foreign("start constructor panicked"))?;
+                if *w == 518 {
+                    cx.hit("boot_startpos_and_default_constructors");
+                    let extra = guard(|| (Board::startpos(), Board::default())).map_err(|_| cx.foreign("start constructor panicked"))?;
+                    if cx.prop == Prop::C06 {
+                        crate::oracle::check_sound(&extra.0, "handed-out", cx)?;
+                        crate::oracle::check_sound(&extra.1, "handed-out", cx)?;
+                    }
+                    if cx.prop == Prop::C01 && cx.step == 0 {
+                        // run the history on the Default board
+                        extra.1
+                    } else {
+                        extra.0
+                    }
+                } else {
+                    cx.hit("boot_chess960_startpos_constructor");
+                    r
+                }
+            } else {
+                guard(|| Board::double_chess960_startpos(*w, *bl)).map_err(|_| cx.foreign("start constructor panicked"))?
+            };
             let model = adopt(&real);
             Ok(World::new(real, model, true))
         }
@@ -295,6 +325,7 @@ pub fn boot(b: &Boot, cx: &mut Ctx) -> R<World> {
 
 /// Execute one operation. On Ok the world is in sync with the model again.
 pub fn step(w: &mut World, op: &Op, cx: &mut Ctx) -> R {
+    w.just_readopted = false;
     if let Some(k) = op.fault_kind() {
         cx.hit(k);
     }
@@ -402,7 +433,9 @@ pub fn step(w: &mut World, op: &Op, cx: &mut Ctx) -> R {
             }
             w.pure_play = false;
             w.sync_or(cx, &[], "", "after clock setters")?;
-            crate::oracle::after_clock_change(w, &before, "setter", cx)?;
+            if !w.just_readopted {
+                crate::oracle::after_clock_change(w, &before, "setter", cx)?;
+            }
             crate::oracle::observe(w, cx)
         }
         Op::RestartEdited(h, n) => {
@@ -430,7 +463,9 @@ pub fn step(w: &mut World, op: &Op, cx: &mut Ctx) -> R {
             w.model = m2;
             w.pure_play = false;
             w.sync_or(cx, &[Prop::C08], "denotation", "after restart from edited record")?;
-            crate::oracle::after_clock_change(w, &before, "edited-record", cx)?;
+            if !w.just_readopted {
+                crate::oracle::after_clock_change(w, &before, "edited-record", cx)?;
+            }
             crate::oracle::observe(w, cx)
         }
         Op::Mask(mask, k) => {
